@@ -9,6 +9,7 @@ mod corpus;
 mod driver;
 mod hashsim;
 mod keys;
+mod ossim;
 mod prng;
 mod proc;
 mod run;
@@ -43,6 +44,7 @@ fn main() {
             match p {
                 "C05" | "C15" => driver::check_hashsim(p, tier),
                 "C13" | "C16" => driver::check_cellsim(p, tier),
+                "C18" | "C03" => driver::check_ossim(p, tier),
                 _ => usage(),
             }
         }
@@ -51,6 +53,7 @@ fn main() {
             let out = match args.get(2).map(|s| s.as_str()) {
                 Some("hashsim") => hashsim::worker(&input),
                 Some("cellsim") => cellsim::worker(&input),
+                Some("ossim") => ossim::worker(&input),
                 _ => usage(),
             };
             println!("{out}");
@@ -61,6 +64,7 @@ fn main() {
             let out = match args.get(2).map(|s| s.as_str()) {
                 Some("hashsim") => hashsim::single(&input),
                 Some("cellsim") => cellsim::single(&input),
+                Some("ossim") => ossim::single(&input),
                 _ => usage(),
             };
             println!("{out}");
@@ -70,6 +74,7 @@ fn main() {
             let input = proc::read_stdin_json();
             let out = match args.get(2).map(|s| s.as_str()) {
                 Some("cellsim") => cellsim::minimise(&input),
+                Some("ossim") => ossim::minimise(&input),
                 _ => usage(),
             };
             println!("{out}");
